@@ -785,6 +785,69 @@ package decimal
 //@   tags safety C04,C07
 
 // ---------------------------------------------------------------------------
+// Binary kernel used by the radix conversion (arith.go / arith_amd64.s): divWVW.
+// V2(m, lo, hi) is the little-endian base-2^64 value of m[lo..hi), P2(k) = 2^(64k);
+// the two defining equations are trusted like Vdef/Pdef.
+
+//@ lemma V2def(m array, lo, hi)
+//@   requires lo <= hi
+//@   ensures V2(m, lo, hi+1) == V2(m, lo, hi) + m[hi]*P2(hi-lo)
+//@   axiom
+
+//@ lemma P2def(k)
+//@   requires k >= 0
+//@   ensures P2(k+1) == 18446744073709551616*P2(k) && P2(k) >= 1
+//@   axiom
+
+//@ lemma P2_add(a, b)
+//@   requires a >= 0 && b >= 0
+//@   ensures P2(a+b) == P2(a)*P2(b)
+//@   induction b from 0
+//@   use P2def(a+b-1)
+//@   use P2def(b-1)
+
+//@ lemma V2_split(m array, lo, mid, hi)
+//@   requires lo <= mid && mid <= hi
+//@   ensures V2(m, lo, hi) == V2(m, lo, mid) + P2(mid-lo)*V2(m, mid, hi)
+//@   induction hi from mid
+//@   use V2def(m, lo, hi-1)
+//@   use V2def(m, mid, hi-1)
+//@   use P2_add(mid-lo, hi-1-mid)
+
+//@ lemma V2_low(m array, lo, hi)
+//@   requires lo < hi
+//@   ensures V2(m, lo, hi) == m[lo] + 18446744073709551616*V2(m, lo+1, hi)
+//@   use V2_split(m, lo, lo+1, hi)
+//@   use V2def(m, lo, lo)
+
+//@ func divWVW_g(z []Word, xn Word, x []Word, y Word) (r Word)
+//@   requires[len]     len(x) >= len(z)
+//@   requires[div]     xn < y
+//@   requires[overlap] inplace_or_disjoint(z, x)
+//@   modifies mem(z)
+//@   ensures[rem,C07]  r < y
+//@   ensures[value,C07,C14] V2(z)*y + r == xn*P2(len(z)) + old(V2(x[:len(z)]))
+//@   loop 1 invariant[range] -1 <= i && i < len(z) && r < y
+//@   loop 1 invariant[value] V2(z[i+1:])*y + r == xn*P2(len(z)-i-1) + old(V2(x[i+1:len(z)]))
+//@   loop 1 invariant[rest]  forall k in 0..i+1 :: x[k] == old(x[k])
+//@   loop 1 modifies mem(z)
+//@   loop 1 hint V2_low(z, i+1, len(z))
+//@   loop 1 hint V2_low(old(x), i+1, len(z))
+//@   loop 1 hint P2def(len(z)-i-2)
+
+//@ func divWVW(z []Word, xn Word, x []Word, y Word) (r Word)
+//@   same divWVW_g
+//@   asm arith_amd64.s
+//@   label E7 invariant[range] 0 <= BX && BX <= len(z) && DX < y
+//@   label E7 invariant[value] V2(z[BX:])*y + DX == xn*P2(len(z)-BX) + old(V2(x[BX:len(z)]))
+//@   label E7 invariant[rest]  forall k in 0..BX :: x[k] == old(x[k])
+//@   label E7 modifies mem(z)
+//@   label E7 hint V2_low(z, BX, len(z))
+//@   label E7 hint V2_low(old(x), BX, len(z))
+//@   label E7 hint P2def(len(z)-BX-1)
+//@   tags safety C04,C07
+
+// ---------------------------------------------------------------------------
 // D: dec (dec.go)
 
 //@ lemma V_zero(m array, lo, hi)
